@@ -86,193 +86,285 @@ theorem parseValueF_num (tok : Str) (v : JValue) (h : NumOK tok v) (f : Nat) (re
   simp only [parseValueF, hne, if_false]
   exact this
 
-section
-variable (esc : Nat → Str) (okC : Nat → Bool) (hesc : ∀ c, okC c = true → EscOK esc c) (okD : Dec → Bool)
-  (hdbl : ∀ d, okD d = true → NumOK (reprDouble d) (.dbl d))
-include hesc hdbl
+mutual
+/-- `render` with arbitrary number tokens (proof device: the texts xml-to-json writes for numbers) -/
+def renderG (esc : Nat → Str) (numI : Int → Str) (numD : Dec → Str) : JValue → Str
+  | .null => [110, 117, 108, 108]
+  | .bool true => [116, 114, 117, 101]
+  | .bool false => [102, 97, 108, 115, 101]
+  | .int n => numI n
+  | .dbl d => numD d
+  | .str s => 34 :: (s.flatMap esc ++ [34])
+  | .arr l => 91 :: renderGL esc numI numD l
+  | .obj m => 123 :: renderGM esc numI numD m
+def renderGL (esc : Nat → Str) (numI : Int → Str) (numD : Dec → Str) : List JValue → Str
+  | [] => [93]
+  | v :: t => renderG esc numI numD v ++ (match t with | [] => [93] | _ :: _ => 44 :: renderGL esc numI numD t)
+def renderGM (esc : Nat → Str) (numI : Int → Str) (numD : Dec → Str) : List (Str × JValue) → Str
+  | [] => [125]
+  | (k, v) :: t =>
+    34 :: (k.flatMap esc ++ [34, 58]) ++ renderG esc numI numD v ++
+      (match t with | [] => [125] | _ :: _ => 44 :: renderGM esc numI numD t)
+end
 
-omit hdbl in
-theorem escOK_all (s : Str) (h : s.all okC = true) : ∀ c ∈ s, EscOK esc c := by
+mutual
+/-- replace every number by what its token is read as -/
+def mapNum (fI : Int → JValue) (fD : Dec → JValue) : JValue → JValue
+  | .int n => fI n
+  | .dbl d => fD d
+  | .arr l => .arr (mapNumL fI fD l)
+  | .obj m => .obj (mapNumM fI fD m)
+  | v => v
+def mapNumL (fI : Int → JValue) (fD : Dec → JValue) : List JValue → List JValue
+  | [] => []
+  | v :: t => mapNum fI fD v :: mapNumL fI fD t
+def mapNumM (fI : Int → JValue) (fD : Dec → JValue) : List (Str × JValue) → List (Str × JValue)
+  | [] => []
+  | (k, v) :: t => (k, mapNum fI fD v) :: mapNumM fI fD t
+end
+
+section
+variable (esc : Nat → Str) (numI : Int → Str) (numD : Dec → Str) (fI : Int → JValue) (fD : Dec → JValue)
+  (okC : Nat → Bool) (hesc : ∀ c, okC c = true → EscOK esc c) (okD : Dec → Bool)
+  (hI : ∀ n, NumOK (numI n) (fI n)) (hdbl : ∀ d, okD d = true → NumOK (numD d) (fD d))
+include hesc hI hdbl
+
+omit hI hdbl in
+theorem escOK_allG (s : Str) (h : s.all okC = true) : ∀ c ∈ s, EscOK esc c := by
   intro c hc
   exact hesc c (List.all_eq_true.mp h c hc)
 
 omit hesc in
 /-- first character of a rendering: never `]` or `}` -/
-theorem render_head : ∀ v : JValue, v.validWith okC okD = true → ∃ c t, render esc v = c :: t ∧ c ≠ 93 ∧ c ≠ 125 := by
+theorem render_headG : ∀ v : JValue, v.validWith okC okD = true → ∃ c t, renderG esc numI numD v = c :: t ∧ c ≠ 93 ∧ c ≠ 125 := by
   intro v hv
   cases v with
   | null => exact ⟨110, _, rfl, by decide, by decide⟩
-  | bool b => cases b <;> simp [render]
+  | bool b => cases b <;> simp [renderG]
   | int n =>
-    obtain ⟨c, t, h, hc⟩ := renderInt_head n
-    refine ⟨c, t, by simp [render, h], ?_⟩
+    obtain ⟨⟨c, t, h, hc⟩, _⟩ := hI n
+    refine ⟨c, t, by simp [renderG, h], ?_⟩
     rcases hc with hc | hc
     · subst hc; decide
     · simp [isDigit] at hc; omega
   | dbl d =>
     obtain ⟨⟨c, t, h, hc⟩, _⟩ := hdbl d (by simpa [JValue.validWith] using hv)
-    refine ⟨c, t, by simp [render, h], ?_⟩
+    refine ⟨c, t, by simp [renderG, h], ?_⟩
     rcases hc with hc | hc
     · subst hc; decide
     · simp [isDigit] at hc; omega
-  | str s => exact ⟨34, s.flatMap esc ++ [34], by simp [render], by decide, by decide⟩
-  | arr l => exact ⟨91, renderL esc l, by simp [render], by decide, by decide⟩
-  | obj m => exact ⟨123, renderM esc m, by simp [render], by decide, by decide⟩
+  | str s => exact ⟨34, s.flatMap esc ++ [34], by simp [renderG], by decide, by decide⟩
+  | arr l => exact ⟨91, renderGL esc numI numD l, by simp [renderG], by decide, by decide⟩
+  | obj m => exact ⟨123, renderGM esc numI numD m, by simp [renderG], by decide, by decide⟩
 
-omit hesc hdbl in
-theorem renderL_head (v : JValue) (t : List JValue) (rest : Str) (c : Nat) (tl : Str)
-    (hct : render esc v = c :: tl) : ∃ tl', renderL esc (v :: t) ++ rest = c :: tl' := by
-  cases t <;> simp [renderL, hct]
+omit hesc hI hdbl in
+theorem renderL_headG (v : JValue) (t : List JValue) (rest : Str) (c : Nat) (tl : Str)
+    (hct : renderG esc numI numD v = c :: tl) : ∃ tl', renderGL esc numI numD (v :: t) ++ rest = c :: tl' := by
+  cases t <;> simp [renderGL, hct]
 
 mutual
-theorem parse_render : ∀ (v : JValue), v.validWith okC okD = true → ∀ (f : Nat) (rest : Str), sepEnd rest → v.size ≤ f →
-    parseValueF f (render esc v ++ rest) = some (v, rest)
+theorem parse_renderG : ∀ (v : JValue), v.validWith okC okD = true → ∀ (f : Nat) (rest : Str), sepEnd rest → v.size ≤ f →
+    parseValueF f (renderG esc numI numD v ++ rest) = some (mapNum fI fD v, rest)
   | .null, _, f, rest, _, hf => by
     obtain ⟨f', rfl⟩ : ∃ f', f = f' + 1 := ⟨f - 1, by simp [JValue.size] at hf; omega⟩
-    simp [render, parseValueF]
+    simp [renderG, parseValueF, mapNum]
   | .bool true, _, f, rest, _, hf => by
     obtain ⟨f', rfl⟩ : ∃ f', f = f' + 1 := ⟨f - 1, by simp [JValue.size] at hf; omega⟩
-    simp [render, parseValueF]
+    simp [renderG, parseValueF, mapNum]
   | .bool false, _, f, rest, _, hf => by
     obtain ⟨f', rfl⟩ : ∃ f', f = f' + 1 := ⟨f - 1, by simp [JValue.size] at hf; omega⟩
-    simp [render, parseValueF]
+    simp [renderG, parseValueF, mapNum]
   | .int n, _, f, rest, hr, hf => by
     obtain ⟨f', rfl⟩ : ∃ f', f = f' + 1 := ⟨f - 1, by simp [JValue.size] at hf; omega⟩
-    exact parseValueF_num (renderInt n) (.int n)
-      ⟨renderInt_head n, fun r hr' => parseNum_renderInt n r hr'⟩ f' rest (numEnd_of_sepEnd rest hr)
+    exact parseValueF_num (numI n) (fI n) (hI n) f' rest (numEnd_of_sepEnd rest hr)
   | .dbl d, hv, f, rest, hr, hf => by
     obtain ⟨f', rfl⟩ : ∃ f', f = f' + 1 := ⟨f - 1, by simp [JValue.size] at hf; omega⟩
-    exact parseValueF_num (reprDouble d) (.dbl d) (hdbl d (by simpa [JValue.validWith] using hv)) f' rest
+    exact parseValueF_num (numD d) (fD d) (hdbl d (by simpa [JValue.validWith] using hv)) f' rest
       (numEnd_of_sepEnd rest hr)
   | .str s, hv, f, rest, _, hf => by
     obtain ⟨f', rfl⟩ : ∃ f', f = f' + 1 := ⟨f - 1, by simp [JValue.size] at hf; omega⟩
-    have hs := escOK_all esc okC hesc s (by simpa [JValue.validWith] using hv)
+    have hs := escOK_allG esc okC hesc s (by simpa [JValue.validWith] using hv)
     have := parseStrF_body esc s hs rest
-    rw [show render esc (.str s) ++ rest = 34 :: (s.flatMap esc ++ 34 :: rest) by simp [render]]
+    rw [show renderG esc numI numD (.str s) ++ rest = 34 :: (s.flatMap esc ++ 34 :: rest) by simp [renderG]]
     simp only [parseValueF, show (34 : Nat) ≠ 91 by decide, show (34 : Nat) ≠ 123 by decide, if_false, if_true]
     rw [this]; rfl
   | .arr [], _, f, rest, _, hf => by
     obtain ⟨f', rfl⟩ : ∃ f', f = f' + 1 := ⟨f - 1, by simp [JValue.size] at hf; omega⟩
-    simp [render, renderL, parseValueF]
+    simp [renderG, renderGL, parseValueF, mapNum, mapNumL]
   | .arr (v :: t), hv, f, rest, hr, hf => by
     obtain ⟨f', rfl⟩ : ∃ f', f = f' + 1 := ⟨f - 1, by simp [JValue.size] at hf; omega⟩
     have hv' : validL okC okD (v :: t) = true := by simpa [JValue.validWith] using hv
     have hvv : v.validWith okC okD = true := by simp [validL] at hv'; exact hv'.1
-    have hl := parse_renderL (v :: t) (by simp) hv' f' rest (by simp [JValue.size] at hf; omega)
-    obtain ⟨c, tl, hct, h93, _⟩ := render_head esc okC okD hdbl v hvv
-    obtain ⟨tl', htl⟩ := renderL_head esc v t rest c tl hct
-    simp only [render, List.cons_append, parseValueF, if_true]
+    have hl := parse_renderLG (v :: t) (by simp) hv' f' rest (by simp [JValue.size] at hf; omega)
+    obtain ⟨c, tl, hct, h93, _⟩ := render_headG esc numI numD fI fD okC okD hI hdbl v hvv
+    obtain ⟨tl', htl⟩ := renderL_headG esc numI numD v t rest c tl hct
+    simp only [renderG, List.cons_append, parseValueF, if_true]
     rw [htl] at hl ⊢
     split
     · rename_i heq; simp at heq; exact absurd heq.1 h93
     · rw [hl]; rfl
   | .obj [], _, f, rest, _, hf => by
     obtain ⟨f', rfl⟩ : ∃ f', f = f' + 1 := ⟨f - 1, by simp [JValue.size] at hf; omega⟩
-    simp [render, renderM, parseValueF]
+    simp [renderG, renderGM, parseValueF, mapNum, mapNumM]
   | .obj ((k, v) :: t), hv, f, rest, hr, hf => by
     obtain ⟨f', rfl⟩ : ∃ f', f = f' + 1 := ⟨f - 1, by simp [JValue.size] at hf; omega⟩
     have hv' : validM okC okD ((k, v) :: t) = true := by simpa [JValue.validWith] using hv
-    have hl := parse_renderM ((k, v) :: t) (by simp) hv' f' rest (by simp [JValue.size] at hf; omega)
-    have hhead : ∃ tl', renderM esc ((k, v) :: t) ++ rest = 34 :: tl' := ⟨_, by simp [renderM]; rfl⟩
+    have hl := parse_renderMG ((k, v) :: t) (by simp) hv' f' rest (by simp [JValue.size] at hf; omega)
+    have hhead : ∃ tl', renderGM esc numI numD ((k, v) :: t) ++ rest = 34 :: tl' := ⟨_, by simp [renderGM]; rfl⟩
     obtain ⟨tl', htl⟩ := hhead
-    simp only [render, List.cons_append, parseValueF]
+    simp only [renderG, List.cons_append, parseValueF]
     simp only [show (123 : Nat) ≠ 91 by decide, if_false, if_true]
     rw [htl] at hl ⊢
     simp only [hl]; rfl
-theorem parse_renderL : ∀ (l : List JValue), l ≠ [] → validL okC okD l = true → ∀ (f : Nat) (rest : Str), sizeL l ≤ f →
-    parseElemsF f (renderL esc l ++ rest) = some (l, rest)
+theorem parse_renderLG : ∀ (l : List JValue), l ≠ [] → validL okC okD l = true → ∀ (f : Nat) (rest : Str), sizeL l ≤ f →
+    parseElemsF f (renderGL esc numI numD l ++ rest) = some (mapNumL fI fD l, rest)
   | [], h, _, _, _, _ => absurd rfl h
   | [v], _, hv, f, rest, hf => by
     obtain ⟨f', rfl⟩ : ∃ f', f = f' + 1 := ⟨f - 1, by simp [sizeL] at hf; omega⟩
     have hvv : v.validWith okC okD = true := by simp [validL] at hv; exact hv
-    have := parse_render v hvv f' (93 :: rest) (Or.inr (Or.inl rfl)) (by simp [sizeL] at hf; omega)
-    simp only [renderL, List.append_assoc, List.singleton_append, parseElemsF, this]
+    have := parse_renderG v hvv f' (93 :: rest) (Or.inr (Or.inl rfl)) (by simp [sizeL] at hf; omega)
+    simp only [renderGL, List.append_assoc, List.singleton_append, parseElemsF, this, mapNumL]
   | v :: w :: t, _, hv, f, rest, hf => by
     obtain ⟨f', rfl⟩ : ∃ f', f = f' + 1 := ⟨f - 1, by simp [sizeL] at hf; omega⟩
     have hvv : v.validWith okC okD = true ∧ validL okC okD (w :: t) = true := by simpa [validL] using hv
-    have h1 := parse_render v hvv.1 f' (44 :: (renderL esc (w :: t) ++ rest)) (Or.inl rfl)
+    have h1 := parse_renderG v hvv.1 f' (44 :: (renderGL esc numI numD (w :: t) ++ rest)) (Or.inl rfl)
       (by simp [sizeL] at hf ⊢; omega)
-    have h2 := parse_renderL (w :: t) (by simp) hvv.2 f' rest (by simp [sizeL] at hf ⊢; omega)
-    rw [show renderL esc (v :: w :: t) ++ rest = render esc v ++ 44 :: (renderL esc (w :: t) ++ rest) by
-      simp [renderL]]
-    simp only [parseElemsF, h1, h2]; rfl
-theorem parse_renderM : ∀ (m : List (Str × JValue)), m ≠ [] → validM okC okD m = true → ∀ (f : Nat) (rest : Str),
-    sizeM m ≤ f → parseMembersF f (renderM esc m ++ rest) = some (m, rest)
+    have h2 := parse_renderLG (w :: t) (by simp) hvv.2 f' rest (by simp [sizeL] at hf ⊢; omega)
+    rw [show renderGL esc numI numD (v :: w :: t) ++ rest = renderG esc numI numD v ++ 44 :: (renderGL esc numI numD (w :: t) ++ rest) by
+      simp [renderGL]]
+    simp only [parseElemsF, h1, h2, mapNumL]; rfl
+theorem parse_renderMG : ∀ (m : List (Str × JValue)), m ≠ [] → validM okC okD m = true → ∀ (f : Nat) (rest : Str),
+    sizeM m ≤ f → parseMembersF f (renderGM esc numI numD m ++ rest) = some (mapNumM fI fD m, rest)
   | [], h, _, _, _, _ => absurd rfl h
   | [(k, v)], _, hv, f, rest, hf => by
     obtain ⟨f', rfl⟩ : ∃ f', f = f' + 1 := ⟨f - 1, by simp [sizeM] at hf; omega⟩
     have hvv : k.all okC = true ∧ v.validWith okC okD = true := by simpa [validM] using hv
-    have hk := parseStrF_body esc k (escOK_all esc okC hesc k hvv.1) (58 :: (render esc v ++ 125 :: rest))
-    have h1 := parse_render v hvv.2 f' (125 :: rest) (Or.inr (Or.inr rfl)) (by simp [sizeM] at hf; omega)
-    rw [show renderM esc [(k, v)] ++ rest = 34 :: (k.flatMap esc ++ 34 :: 58 :: (render esc v ++ 125 :: rest)) by
-      simp [renderM]]
-    simp only [parseMembersF, hk, h1]
+    have hk := parseStrF_body esc k (escOK_allG esc okC hesc k hvv.1) (58 :: (renderG esc numI numD v ++ 125 :: rest))
+    have h1 := parse_renderG v hvv.2 f' (125 :: rest) (Or.inr (Or.inr rfl)) (by simp [sizeM] at hf; omega)
+    rw [show renderGM esc numI numD [(k, v)] ++ rest = 34 :: (k.flatMap esc ++ 34 :: 58 :: (renderG esc numI numD v ++ 125 :: rest)) by
+      simp [renderGM]]
+    simp only [parseMembersF, hk, h1, mapNumM]
   | (k, v) :: w :: t, _, hv, f, rest, hf => by
     obtain ⟨f', rfl⟩ : ∃ f', f = f' + 1 := ⟨f - 1, by simp [sizeM] at hf; omega⟩
     have hvv : (k.all okC = true ∧ v.validWith okC okD = true) ∧ validM okC okD (w :: t) = true := by
       simpa [validM] using hv
-    have hk := parseStrF_body esc k (escOK_all esc okC hesc k hvv.1.1)
-      (58 :: (render esc v ++ 44 :: (renderM esc (w :: t) ++ rest)))
-    have h1 := parse_render v hvv.1.2 f' (44 :: (renderM esc (w :: t) ++ rest)) (Or.inl rfl)
+    have hk := parseStrF_body esc k (escOK_allG esc okC hesc k hvv.1.1)
+      (58 :: (renderG esc numI numD v ++ 44 :: (renderGM esc numI numD (w :: t) ++ rest)))
+    have h1 := parse_renderG v hvv.1.2 f' (44 :: (renderGM esc numI numD (w :: t) ++ rest)) (Or.inl rfl)
       (by simp [sizeM] at hf ⊢; omega)
-    have h2 := parse_renderM (w :: t) (by simp) hvv.2 f' rest (by simp [sizeM] at hf ⊢; omega)
-    rw [show renderM esc ((k, v) :: w :: t) ++ rest =
-        34 :: (k.flatMap esc ++ 34 :: 58 :: (render esc v ++ 44 :: (renderM esc (w :: t) ++ rest))) by
-      simp [renderM]]
-    simp only [parseMembersF, hk, h1, h2]; rfl
+    have h2 := parse_renderMG (w :: t) (by simp) hvv.2 f' rest (by simp [sizeM] at hf ⊢; omega)
+    rw [show renderGM esc numI numD ((k, v) :: w :: t) ++ rest =
+        34 :: (k.flatMap esc ++ 34 :: 58 :: (renderG esc numI numD v ++ 44 :: (renderGM esc numI numD (w :: t) ++ rest))) by
+      simp [renderGM]]
+    simp only [parseMembersF, hk, h1, h2, mapNumM]; rfl
 end
 
 
 mutual
-theorem size_le_render : ∀ (v : JValue), v.validWith okC okD = true → v.size ≤ (render esc v).length
-  | .null, _ => by simp [JValue.size, render]
-  | .bool true, _ => by simp [JValue.size, render]
-  | .bool false, _ => by simp [JValue.size, render]
+theorem size_le_renderG : ∀ (v : JValue), v.validWith okC okD = true → v.size ≤ (renderG esc numI numD v).length
+  | .null, _ => by simp [JValue.size, renderG]
+  | .bool true, _ => by simp [JValue.size, renderG]
+  | .bool false, _ => by simp [JValue.size, renderG]
   | .int n, _ => by
-    obtain ⟨c, t, h, _⟩ := renderInt_head n
-    simp [JValue.size, render, h]
+    obtain ⟨⟨c, t, h, _⟩, _⟩ := hI n
+    simp [JValue.size, renderG, h]
   | .dbl d, hv => by
     obtain ⟨⟨c, t, h, _⟩, _⟩ := hdbl d (by simpa [JValue.validWith] using hv)
-    simp [JValue.size, render, h]
-  | .str s, _ => by simp [JValue.size, render]
+    simp [JValue.size, renderG, h]
+  | .str s, _ => by simp [JValue.size, renderG]
   | .arr l, hv => by
-    have := size_le_renderL l (by simpa [JValue.validWith] using hv)
-    simp [JValue.size, render]; omega
+    have := size_le_renderLG l (by simpa [JValue.validWith] using hv)
+    simp [JValue.size, renderG]; omega
   | .obj m, hv => by
-    have := size_le_renderM m (by simpa [JValue.validWith] using hv)
-    simp [JValue.size, render]; omega
-theorem size_le_renderL : ∀ (l : List JValue), validL okC okD l = true → sizeL l ≤ (renderL esc l).length
-  | [], _ => by simp [sizeL, renderL]
+    have := size_le_renderMG m (by simpa [JValue.validWith] using hv)
+    simp [JValue.size, renderG]; omega
+theorem size_le_renderLG : ∀ (l : List JValue), validL okC okD l = true → sizeL l ≤ (renderGL esc numI numD l).length
+  | [], _ => by simp [sizeL, renderGL]
   | [v], hv => by
-    have := size_le_render v (by simpa [validL] using hv)
-    simp [sizeL, renderL]; omega
+    have := size_le_renderG v (by simpa [validL] using hv)
+    simp [sizeL, renderGL]; omega
   | v :: w :: t, hv => by
     have hvv : v.validWith okC okD = true ∧ validL okC okD (w :: t) = true := by simpa [validL] using hv
-    have h1 := size_le_render v hvv.1
-    have h2 := size_le_renderL (w :: t) hvv.2
-    simp only [sizeL, renderL, List.length_append, List.length_cons] at h2 ⊢; omega
-theorem size_le_renderM : ∀ (m : List (Str × JValue)), validM okC okD m = true → sizeM m ≤ (renderM esc m).length
-  | [], _ => by simp [sizeM, renderM]
+    have h1 := size_le_renderG v hvv.1
+    have h2 := size_le_renderLG (w :: t) hvv.2
+    simp only [sizeL, renderGL, List.length_append, List.length_cons] at h2 ⊢; omega
+theorem size_le_renderMG : ∀ (m : List (Str × JValue)), validM okC okD m = true → sizeM m ≤ (renderGM esc numI numD m).length
+  | [], _ => by simp [sizeM, renderGM]
   | [(k, v)], hv => by
     have hvv : k.all okC = true ∧ v.validWith okC okD = true := by simpa [validM] using hv
-    have := size_le_render v hvv.2
-    simp [sizeM, renderM]; omega
+    have := size_le_renderG v hvv.2
+    simp [sizeM, renderGM]; omega
   | (k, v) :: w :: t, hv => by
     have hvv : (k.all okC = true ∧ v.validWith okC okD = true) ∧ validM okC okD (w :: t) = true := by
       simpa [validM] using hv
-    have h1 := size_le_render v hvv.1.2
-    have h2 := size_le_renderM (w :: t) hvv.2
-    simp only [sizeM, renderM, List.length_append, List.length_cons] at h2 ⊢; omega
+    have h1 := size_le_renderG v hvv.1.2
+    have h2 := size_le_renderMG (w :: t) hvv.2
+    simp only [sizeM, renderGM, List.length_append, List.length_cons] at h2 ⊢; omega
 end
 
 /-- a complete text: the RFC 8259 reader returns the value that was rendered -/
-theorem parseJson_render (v : JValue) (hv : v.validWith okC okD = true) : parseJson (render esc v) = some v := by
-  have h := parse_render esc okC hesc okD hdbl v hv ((render esc v).length + 1) [] trivial
-    (by have := size_le_render esc okC hesc okD hdbl v hv; omega)
+theorem parseJson_renderG (v : JValue) (hv : v.validWith okC okD = true) : parseJson (renderG esc numI numD v) = some (mapNum fI fD v) := by
+  have h := parse_renderG esc numI numD fI fD okC hesc okD hI hdbl v hv ((renderG esc numI numD v).length + 1) [] trivial
+    (by have := size_le_renderG esc numI numD fI fD okC hesc okD hI hdbl v hv; omega)
   simp only [List.append_nil] at h
   simp [parseJson, h]
 
 end
+
+
+/-! ### the standard rendering is the instance `numI = renderInt`, `numD = reprDouble` -/
+
+mutual
+theorem renderG_std (esc : Nat → Str) : ∀ v : JValue, renderG esc renderInt reprDouble v = render esc v
+  | .null => rfl
+  | .bool true => rfl
+  | .bool false => rfl
+  | .int _ => rfl
+  | .dbl _ => rfl
+  | .str _ => rfl
+  | .arr l => by simp only [renderG, render, renderGL_std esc l]
+  | .obj m => by simp only [renderG, render, renderGM_std esc m]
+theorem renderGL_std (esc : Nat → Str) : ∀ l : List JValue, renderGL esc renderInt reprDouble l = renderL esc l
+  | [] => rfl
+  | [v] => by simp only [renderGL, renderL, renderG_std esc v]
+  | v :: w :: t => by
+    have := renderGL_std esc (w :: t)
+    simp only [renderGL, renderL, renderG_std esc v] at this ⊢
+    rw [this]
+theorem renderGM_std (esc : Nat → Str) : ∀ m : List (Str × JValue), renderGM esc renderInt reprDouble m = renderM esc m
+  | [] => rfl
+  | [(k, v)] => by simp only [renderGM, renderM, renderG_std esc v]
+  | (k, v) :: w :: t => by
+    have := renderGM_std esc (w :: t)
+    simp only [renderGM, renderM, renderG_std esc v] at this ⊢
+    rw [this]
+end
+
+mutual
+theorem mapNum_id : ∀ v : JValue, mapNum JValue.int JValue.dbl v = v
+  | .null => rfl
+  | .bool _ => rfl
+  | .int _ => rfl
+  | .dbl _ => rfl
+  | .str _ => rfl
+  | .arr l => by simp only [mapNum, mapNumL_id l]
+  | .obj m => by simp only [mapNum, mapNumM_id m]
+theorem mapNumL_id : ∀ l : List JValue, mapNumL JValue.int JValue.dbl l = l
+  | [] => rfl
+  | v :: t => by simp only [mapNumL, mapNum_id v, mapNumL_id t]
+theorem mapNumM_id : ∀ m : List (Str × JValue), mapNumM JValue.int JValue.dbl m = m
+  | [] => rfl
+  | (k, v) :: t => by simp only [mapNumM, mapNum_id v, mapNumM_id t]
+end
+
+/-- a complete text: the RFC 8259 reader returns the value that was rendered -/
+theorem parseJson_render (esc : Nat → Str) (okC : Nat → Bool) (hesc : ∀ c, okC c = true → EscOK esc c)
+    (okD : Dec → Bool) (hdbl : ∀ d, okD d = true → NumOK (reprDouble d) (.dbl d))
+    (v : JValue) (hv : v.validWith okC okD = true) : parseJson (render esc v) = some v := by
+  have := parseJson_renderG esc renderInt reprDouble JValue.int JValue.dbl okC hesc okD
+    (fun n => ⟨renderInt_head n, fun r hr => parseNum_renderInt n r hr⟩) hdbl v hv
+  rw [renderG_std, mapNum_id] at this
+  exact this
 
 /-! ### `.replace('/', '\\/')` on the whole text = escaping `/` inside the strings -/
 
